@@ -76,17 +76,26 @@ Proof.
   intros H Hn. rewrite forallb_forall in H. apply H. eapply nth_error_In; eauto.
 Qed.
 
+Arguments get : simpl never.
+Arguments tokens : simpl never.
+
 (* ---- get / set_co --------------------------------------------------------------------------------- *)
 Lemma get_set_co s c v x c' : get s c = Some x ->
   get (set_co c v s) c' = if Nat.eqb c' c then Some v else get s c'.
-Proof. intros H. unfold get, set_co. simpl. apply nth_error_set_nth with (old := x). exact H. Qed.
+Proof. intros H. unfold get, set_co in *. simpl. apply nth_error_set_nth with (old := x). exact H. Qed.
 Lemma get_set_co_same s c v x : get s c = Some x -> get (set_co c v s) c = Some v.
 Proof. intros H. rewrite (get_set_co _ _ _ _ _ H), Nat.eqb_refl. reflexivity. Qed.
 Lemma get_set_co_other s c v x c' : get s c = Some x -> c' <> c -> get (set_co c v s) c' = get s c'.
 Proof. intros H N. rewrite (get_set_co _ _ _ _ _ H). apply Nat.eqb_neq in N. rewrite N. reflexivity. Qed.
 
+Lemma get_set_sender s w c : get (set_sender w s) c = get s c. Proof. reflexivity. Qed.
+Lemma get_set_receiver s r c : get (set_receiver r s) c = get s c. Proof. reflexivity. Qed.
+Lemma tokens_set_sender s w : tokens (set_sender w s) = tokens s. Proof. reflexivity. Qed.
+Lemma tokens_set_receiver s r : tokens (set_receiver r s) = tokens s. Proof. reflexivity. Qed.
+#[export] Hint Rewrite get_set_sender get_set_receiver tokens_set_sender tokens_set_receiver : frame.
+
 Lemma tokens_set_co s c v x : get s c = Some x -> tokens (set_co c v s) + tok x = tokens s + tok v.
-Proof. intros H. unfold tokens, set_co. simpl. apply sumf_set_nth. exact H. Qed.
+Proof. intros H. unfold tokens, get, set_co in *. simpl. apply sumf_set_nth. exact H. Qed.
 Lemma tok_le s c x : get s c = Some x -> tok x <= tokens s.
 Proof. apply sumf_nth_le. Qed.
 Lemma tok_le2 s c c' x x' : get s c = Some x -> get s c' = Some x' -> c <> c' -> tok x + tok x' <= tokens s.
@@ -351,4 +360,352 @@ Qed.
 Lemma inv_rassert s c v s' : Inv s -> step s (ERAssert c v) = Some s' -> Inv s'.
 Proof.
   intros I H. unfold step in H. case_hyp H; inv_some H; local_update I Heqo.
+Qed.
+
+Lemma locked_nonempty w : is_free w = false -> is_locked_empty w = false -> exists n l, w = Locked (n :: l).
+Proof. destruct w as [|[|n l]]; simpl; try discriminate. eauto. Qed.
+
+Lemma inv_rcheck s c b s' : Inv s -> step s (ERCheck c b) = Some s' -> Inv s'.
+Proof.
+  intros I H. unfold step in H. case_hyp H; inv_some H; apply eqb_true_l in Heqb0.
+  - (* empty: second load next *) local_update I Heqo. rewrite <- Heqb0. reflexivity.
+  - symmetry in Heqb0. apply negb_false_iff in Heqb0.
+    unfold slow_stage. rewrite Heqb0. destruct r, (batching s); simpl; local_update I Heqo.
+Qed.
+
+Lemma inv_rload s c v s' : Inv s -> step s (ERLoad c v) = Some s' -> Inv s'.
+Proof.
+  intros I H. unfold step in H. case_hyp H; inv_some H.
+  all: apply ptr_eqb_eq in Heqb.
+  all: pose proof (proj2 (i_lc _ I _ _ Heqo)) as G; unfold stage_ok in G; rewrite Heqo0 in G;
+    apply negb_true_iff in G.
+  all: assert (F : is_free (sender s) = false) by (eapply tok_locked; eauto; eapply rel_tok; eauto).
+  2: solve [local_update I Heqo; rewrite G; reflexivity].
+  all: unfold slow_stage; rewrite G; rewrite ?andb_false_r.
+  all: assert (E : exists n l, sender s = Locked (n :: l))
+    by (destruct (sender s) as [|[|nn ll]]; simpl in *; try discriminate; eauto).
+  all: destruct E as (n0 & l0 & E).
+  all: destruct r; local_update I Heqo; rewrite G, E; reflexivity.
+Qed.
+
+Lemma inv_rcas_fail s c x f w : Inv s -> get s c = Some x -> rel x = Some (f, RCas, w) ->
+  is_locked_empty (sender s) = false -> Inv (set_co c (upd_rel (Some (f, slow_stage s f, w)) x) s).
+Proof.
+  intros I Hx R E.
+  pose proof (proj2 (i_lc _ I _ _ Hx)) as G; unfold stage_ok in G; rewrite R in G; apply negb_true_iff in G.
+  assert (F : is_free (sender s) = false) by (eapply tok_locked; eauto; eapply rel_tok; eauto).
+  destruct (locked_nonempty _ F E) as (n0 & l0 & E').
+  unfold slow_stage; rewrite G; rewrite ?andb_false_r.
+  destruct f; local_update I Hx; rewrite G, E'; reflexivity.
+Qed.
+
+Lemma inv_add_entered s c q r : Inv s -> Inv (add_entered c q r s).
+Proof. intros I. destruct I. constructor; simpl; auto. Qed.
+Lemma inv_add_pushed s c : Inv s -> Inv (add_pushed c s).
+Proof. intros I. destruct I. constructor; simpl; auto. Qed.
+Lemma inv_add_handed s c : Inv s -> Inv (add_handed c s).
+Proof. intros I. destruct I. constructor; simpl; auto. Qed.
+
+Lemma no_rel_when_free s c x : Inv s -> is_free (sender s) = true -> get s c = Some x -> rel x = None.
+Proof.
+  intros I F H. pose proof (free_no_tok s c x I F H) as T. unfold tok, releasing in T.
+  destruct (rel x); [lia|reflexivity].
+Qed.
+
+Lemma stage_ok_none snd rcv x : rel x = None -> stage_ok snd rcv x = true.
+Proof. unfold stage_ok. intros ->. reflexivity. Qed.
+
+(* ---- acquiring the free lock (TryLockAwait's strong CAS, AwaitLock's weak CAS) -------------------------- *)
+Lemma inv_acquire s c x x' : Inv s -> get s c = Some x -> is_free (sender s) = true ->
+  holds x' = 1 -> rel x' = rel x -> parked x' = false -> lcb x' = true ->
+  Inv (set_sender (Locked []) (set_co c x' s)).
+Proof.
+  intros I Hx F H1 R P L.
+  assert (Rx : rel x = None) by (eapply no_rel_when_free; eauto).
+  assert (Tx : tok x = 0) by (eapply free_no_tok; eauto).
+  assert (E : lists s = []).
+  { unfold lists. rewrite (i_recv s I F). destruct (sender s); [reflexivity|discriminate]. }
+  constructor; simpl; autorewrite with frame.
+  - pose proof (tokens_set_co s c x' x Hx) as T. rewrite (i_tok s I), F in T.
+    unfold tok, releasing in T, Tx. rewrite R, Rx in T. rewrite Rx in Tx.
+    lia.
+  - discriminate.
+  - intros c' y. rewrite ?get_set_receiver, ?get_set_sender. rewrite (get_set_co _ _ _ _ _ Hx). destruct (Nat.eqb c' c) eqn:Ec.
+    + intros Hy. inv_some Hy. split; [exact L|]. apply stage_ok_none. congruence.
+    + intros Hy. split; [apply (i_lc s I c' y Hy)|]. apply stage_ok_none. eapply no_rel_when_free; eauto.
+  - unfold lists. simpl. rewrite (i_recv s I F). intros n [].
+  - unfold lists. simpl. rewrite (i_recv s I F). constructor.
+  - intros c' y. rewrite ?get_set_receiver, ?get_set_sender. rewrite (get_set_co _ _ _ _ _ Hx). destruct (Nat.eqb c' c) eqn:Ec.
+    + intros Hy Py. inv_some Hy. unfold parked in P. rewrite Py in P. discriminate.
+    + intros Hy Py. pose proof (i_pk3 s I c' y Hy Py) as Hin. rewrite E in Hin. destruct Hin.
+Qed.
+
+Lemma inv_tcas s c ok s' : Inv s -> step s (ETCas c ok) = Some s' -> Inv s'.
+Proof.
+  intros I H. unfold step in H. case_hyp H; inv_some H; apply eqb_true_l in Heqb; subst;
+    try (eapply inv_try_failed; eauto; fail); try apply inv_add_try.
+  all: eapply inv_acquire; eauto; try reflexivity; side_lcb I Heqo.
+Qed.
+
+Lemma inv_lcasn s c s' : Inv s -> step s (ELCasN c) = Some s' -> Inv s'.
+Proof.
+  intros I H. unfold step in H. case_hyp H; inv_some H.
+  all: eapply inv_acquire; eauto; try reflexivity; side_lcb I Heqo.
+Qed.
+
+(* ---- pushing oneself (AwaitLock's second CAS) -------------------------------------------------------------- *)
+Lemma stage_ok_push l c rcv x : stage_ok (Locked l) rcv x = true -> stage_ok (Locked (c :: l)) rcv x = true.
+Proof.
+  unfold stage_ok. destruct (rel x) as [[[f stg] w]|]; auto. destruct stg; auto.
+  intros H. apply andb_true_iff in H. destruct H as [H _]. rewrite H. reflexivity.
+Qed.
+
+Lemma inv_push s c s' : Inv s -> step s (EPush c) = Some s' -> Inv s'.
+Proof.
+  intros I H. unfold step in H. case_hyp H; inv_some H; apply inv_add_pushed.
+  all: match goal with |- Inv (set_sender _ (set_co _ ?v _)) => set (x' := v) end.
+  all: assert (NP : parked c0 = false) by (unfold parked; rewrite Heqp; reflexivity).
+  all: assert (Nin : ~ In c (lists s)) by (eapply in_lists_not_parked_absurd; eauto).
+  all: assert (Tx : tok x' = tok c0) by (subst x'; side_tok).
+  all: assert (Lx : lcb x' = true) by (subst x'; side_lcb I Heqo).
+  all: assert (Lst : lists s = l ++ receiver s) by (unfold lists; rewrite Heqw; reflexivity).
+  all: constructor; simpl; autorewrite with frame.
+  all: try (pose proof (tokens_set_co s c x' c0 Heqo) as T; rewrite (i_tok s I), Heqw in T; simpl in T; lia).
+  all: try discriminate.
+  all: try (intros c' y; rewrite ?get_set_receiver, ?get_set_sender; rewrite (get_set_co _ _ _ _ _ Heqo); destruct (Nat.eqb c' c) eqn:Ec;
+            [intros Hy; inv_some Hy; split; [exact Lx|];
+             pose proof (proj2 (i_lc _ I _ _ Heqo)) as G; rewrite Heqw in G; apply stage_ok_push;
+             unfold stage_ok in *; subst x'; cbn; exact G
+            |intros Hy; split; [apply (i_lc s I c' y Hy)|];
+             pose proof (proj2 (i_lc _ I _ _ Hy)) as G; rewrite Heqw in G; apply stage_ok_push; exact G]).
+  all: try (unfold lists; simpl; intros n' [<-|Hin];
+            [exists x'; split; [rewrite ?get_set_sender; eapply get_set_co_same; eauto|reflexivity]
+            |rewrite <- Lst in Hin; destruct (i_pk1 s I n' Hin) as (y & Hy & Py); exists y; split; [|exact Py];
+             rewrite ?get_set_sender; rewrite (get_set_co_other _ _ _ _ _ Heqo); [exact Hy|intros ->; contradiction]]).
+  all: try (unfold lists; simpl; constructor; [rewrite <- Lst; exact Nin|rewrite <- Lst; apply (i_pk2 s I)]).
+  all: try (intros c' y; rewrite ?get_set_receiver, ?get_set_sender; rewrite (get_set_co _ _ _ _ _ Heqo); unfold lists; simpl; destruct (Nat.eqb c' c) eqn:Ec;
+            [apply Nat.eqb_eq in Ec; subst c'; intros _ _; left; reflexivity
+            |intros Hy Py; right; rewrite <- Lst; apply (i_pk3 s I c' y Hy Py)]).
+Qed.
+
+Lemma inv_enter s c s' : Inv s -> step s (EEnter c) = Some s' -> Inv s'.
+Proof.
+  intros I H. unfold step in H. case_hyp H; inv_some H; apply inv_add_entered; local_update I Heqo.
+Qed.
+
+(* ---- the release CAS succeeded --------------------------------------------------------------------------- *)
+Lemma end_rel_tok f x : holds x = 0 -> tok (end_rel f x) = 0.
+Proof. intros H. unfold end_rel, tok, holds, releasing in *. destruct f; cbn in *; lia. Qed.
+
+Lemma end_rel_lcb s c x f stg w : Inv s -> get s c = Some x -> rel x = Some (f, stg, w) ->
+  match stg with RSelf _ | RXfer _ => False | _ => True end -> lcb (end_rel f x) = true.
+Proof.
+  intros I Hx R S. pose proof (proj1 (i_lc _ I _ _ Hx)) as L. unfold lcb, is_prel, end_rel in *.
+  rewrite R in L. destruct f, stg; try contradiction; cbn in *; destruct (pc x), (loc x); cbn in *;
+    try discriminate; reflexivity.
+Qed.
+
+Lemma others_no_rel s c x c' y r : Inv s -> get s c = Some x -> rel x = Some r -> get s c' = Some y -> c' <> c ->
+  rel y = None /\ holds y = 0.
+Proof.
+  intros I Hx R Hy N. pose proof (tok_unique s c c' x y I Hx Hy (rel_tok x r R) N) as T.
+  unfold tok, releasing in T. destruct (rel y); [lia|]. split; [reflexivity|lia].
+Qed.
+
+Lemma inv_rcas s c ok s' : Inv s -> step s (ERCas c ok) = Some s' -> Inv s'.
+Proof.
+  intros I H. unfold step in H. case_hyp H; inv_some H; apply eqb_true_l in Heqb; symmetry in Heqb.
+  2: eapply inv_rcas_fail; eauto.
+  assert (E : sender s = Locked []) by (destruct (sender s) as [|[|? ?]]; simpl in Heqb; try discriminate; reflexivity).
+  pose proof (proj2 (i_lc _ I _ _ Heqo)) as G; unfold stage_ok in G; rewrite Heqo0 in G; apply negb_true_iff in G.
+  assert (Rv : receiver s = []) by (destruct (receiver s); [reflexivity|discriminate]).
+  assert (Hh : holds c0 = 0) by (eapply rel_not_holding; eauto).
+  assert (Lst : lists s = []) by (unfold lists; rewrite E, Rv; reflexivity).
+  constructor; simpl; autorewrite with frame.
+  - pose proof (tokens_set_co s c (end_rel r c0) c0 Heqo) as T. rewrite (end_rel_tok _ _ Hh) in T.
+    rewrite (i_tok s I), E in T. simpl in T. unfold tok, releasing in T. rewrite Heqo0 in T. lia.
+  - intros _. exact Rv.
+  - intros c' y. rewrite ?get_set_sender. rewrite (get_set_co _ _ _ _ _ Heqo). destruct (Nat.eqb c' c) eqn:Ec.
+    + intros Hy. inv_some Hy. split; [eapply end_rel_lcb; eauto; exact Logic.I|]. apply stage_ok_none.
+      unfold end_rel. destruct r; reflexivity.
+    + intros Hy. apply Nat.eqb_neq in Ec. split; [apply (i_lc s I c' y Hy)|]. apply stage_ok_none.
+      apply (proj1 (others_no_rel s c c0 c' y _ I Heqo Heqo0 Hy Ec)).
+  - unfold lists. simpl. rewrite Rv. intros z [].
+  - unfold lists. simpl. rewrite Rv. constructor.
+  - intros c' y. rewrite ?get_set_sender. rewrite (get_set_co _ _ _ _ _ Heqo). destruct (Nat.eqb c' c) eqn:Ec.
+    + intros Hy Py. inv_some Hy. exfalso. assert (Px : pc c0 = PParked).
+      { unfold end_rel in Py. destruct r; cbn in Py; try discriminate; exact Py. }
+      pose proof (i_pk3 s I c c0 Heqo Px) as Hin. rewrite Lst in Hin. destruct Hin.
+    + intros Hy Py. pose proof (i_pk3 s I c' y Hy Py) as Hin. rewrite Lst in Hin. destruct Hin.
+Qed.
+
+(* ---- GetHead's exchange ------------------------------------------------------------------------------------ *)
+Lemma nonempty_rev {A} (n : A) l : nonempty (rev (n :: l)) = true.
+Proof. simpl. destruct (rev l); reflexivity. Qed.
+
+Lemma NoDup_app_l {A} (l1 l2 : list A) : NoDup (l1 ++ l2) -> NoDup l1.
+Proof.
+  induction l1 as [|a l1 IH]; simpl; intros H; [constructor|]. inversion H; subst.
+  constructor; [intros Hin; apply H2; apply in_or_app; left; exact Hin|apply IH; assumption].
+Qed.
+
+Lemma inv_xchg_gen s c x f w n l R : Inv s -> get s c = Some x -> rel x = Some (f, RHead, w) ->
+  sender s = Locked (n :: l) -> (forall z, In z R <-> In z (n :: l)) -> NoDup R -> nonempty R = true ->
+  Inv (set_receiver R (set_sender (Locked []) (set_co c (upd_rel (Some (f, RNext false, w)) x) s))).
+Proof.
+  intros I Hx Rx E InR ND NR.
+  pose proof (proj2 (i_lc _ I _ _ Hx)) as G; unfold stage_ok in G; rewrite Rx in G;
+    apply andb_true_iff in G; destruct G as [G _]; apply negb_true_iff in G.
+  assert (Rv : receiver s = []) by (destruct (receiver s); [reflexivity|discriminate]).
+  assert (Lst : lists s = n :: l) by (unfold lists; rewrite E, Rv, app_nil_r; reflexivity).
+  set (x' := upd_rel (Some (f, RNext false, w)) x).
+  assert (Tx : tok x' = tok x) by (subst x'; side_tok).
+  assert (Lx : lcb x' = true) by (subst x'; side_lcb I Hx).
+  assert (Px : pc x' = pc x) by reflexivity.
+  constructor; simpl; autorewrite with frame.
+  - pose proof (tokens_set_co s c x' x Hx) as T. rewrite (i_tok s I), E in T. simpl in T. lia.
+  - discriminate.
+  - intros c' y. rewrite ?get_set_receiver, ?get_set_sender. rewrite (get_set_co _ _ _ _ _ Hx).
+    destruct (Nat.eqb c' c) eqn:Ec.
+    + intros Hy. inv_some Hy. split; [exact Lx|]. unfold stage_ok. subst x'. cbn. exact NR.
+    + intros Hy. apply Nat.eqb_neq in Ec. split; [apply (i_lc s I c' y Hy)|]. apply stage_ok_none.
+      apply (proj1 (others_no_rel s c x c' y _ I Hx Rx Hy Ec)).
+  - unfold lists. simpl. intros z Hz. apply InR in Hz. rewrite <- Lst in Hz.
+    destruct (i_pk1 s I z Hz) as (y & Hy & Py). rewrite ?get_set_receiver, ?get_set_sender.
+    rewrite (get_set_co _ _ _ _ _ Hx). destruct (Nat.eqb z c) eqn:Ec.
+    + apply Nat.eqb_eq in Ec. subst z. exists x'. split; [reflexivity|]. rewrite Px.
+      rewrite Hx in Hy. inv_some Hy. exact Py.
+    + exists y. split; assumption.
+  - unfold lists. simpl. exact ND.
+  - intros c' y. rewrite ?get_set_receiver, ?get_set_sender. rewrite (get_set_co _ _ _ _ _ Hx).
+    unfold lists. simpl. destruct (Nat.eqb c' c) eqn:Ec.
+    + apply Nat.eqb_eq in Ec. subst c'. intros Hy Py. inv_some Hy. apply InR. rewrite <- Lst.
+      apply (i_pk3 s I c x Hx). rewrite <- Px. exact Py.
+    + intros Hy Py. apply InR. rewrite <- Lst. apply (i_pk3 s I c' y Hy Py).
+Qed.
+
+Lemma inv_rxchg s c old s' : Inv s -> step s (ERXchg c old) = Some s' -> Inv s'.
+Proof.
+  intros I H. unfold step in H. case_hyp H; inv_some H.
+  all: assert (ND : NoDup (n0 :: l0)).
+  1,3: pose proof (i_pk2 s I) as ND; unfold lists in ND; rewrite Heqw in ND; simpl waiters in ND;
+    apply NoDup_app_l in ND; exact ND.
+  - change (rev l0 ++ [n0]) with (rev (n0 :: l0)). eapply inv_xchg_gen; eauto.
+    + intros z. rewrite <- in_rev. tauto.
+    + apply NoDup_rev. exact ND.
+    + apply nonempty_rev.
+  - eapply inv_xchg_gen; eauto. tauto.
+Qed.
+
+(* ---- handing the lock to the head of the receiver -------------------------------------------------------------- *)
+Lemma inv_hand s c x xc n lc' e s' r : Inv s -> get s c = Some x -> rel x = Some r ->
+  rel xc = None -> holds xc = 0 -> parked xc = parked x -> lcb xc = true -> lc' <> LNone ->
+  hand n lc' e (set_co c xc s) = Some s' -> Inv s'.
+Proof.
+  intros I Hx Rx Rc Hc Pc Lc Nl H.
+  unfold hand in H. cbn [receiver set_co] in H.
+  destruct (receiver s) as [|n' rest] eqn:Rv; [discriminate|].
+  destruct (Nat.eqb n n') eqn:En; [|discriminate]. apply Nat.eqb_eq in En; subst n'.
+  destruct (get (set_co c xc s) n) as [y|] eqn:Hy; [|discriminate].
+  destruct (pc y) eqn:Py; try discriminate. inv_some H. apply inv_add_handed.
+  set (s1 := set_co c xc s) in *.
+  match goal with |- Inv (set_receiver _ (set_co _ ?v _)) => set (y2 := v) end.
+  assert (F : is_free (sender s) = false) by (eapply tok_locked; eauto; eapply rel_tok; eauto).
+  assert (Hxh : holds x = 0) by (eapply rel_not_holding; eauto).
+  assert (Tx : tok x = 1) by (unfold tok, releasing; rewrite Rx; lia).
+  assert (Tc : tok xc = 0) by (unfold tok, releasing; rewrite Rc; lia).
+  assert (Hy' : (n = c /\ y = xc) \/ (n <> c /\ get s n = Some y)).
+  { subst s1. rewrite (get_set_co _ _ _ _ _ Hx) in Hy. destruct (Nat.eqb n c) eqn:E.
+    - apply Nat.eqb_eq in E. inv_some Hy. left; auto.
+    - apply Nat.eqb_neq in E. right; auto. }
+  assert (Ry : rel y = None /\ holds y = 0).
+  { destruct Hy' as [[-> ->]|[N Hn]]; [split; assumption|].
+    exact (others_no_rel s c x n y _ I Hx Rx Hn N). }
+  destruct Ry as [Ry Hyh].
+  assert (Ty : tok y = 0) by (unfold tok, releasing; rewrite Ry; lia).
+  assert (Ty2 : tok y2 = 1).
+  { subst y2. unfold tok, holds, releasing. destruct e; cbn; rewrite Ry; reflexivity. }
+  assert (Py2 : pc y2 = PGot true) by (subst y2; destruct e; reflexivity).
+  assert (Ry2 : rel y2 = None) by (subst y2; destruct e; cbn; exact Ry).
+  assert (Ly2 : lcb y2 = true).
+  { unfold lcb, is_prel. rewrite Py2, Ry2. subst y2. destruct e, lc'; cbn; congruence. }
+  assert (T1 : tokens s1 = 0).
+  { pose proof (tokens_set_co s c xc x Hx) as T. rewrite (i_tok s I), F in T. subst s1. lia. }
+  pose proof (i_pk2 s I) as ND. unfold lists in ND. rewrite Rv in ND.
+  pose proof (NoDup_remove_1 _ _ _ ND) as ND1. pose proof (NoDup_remove_2 _ _ _ ND) as ND2.
+  assert (G2 : forall c', get (set_co n y2 s1) c' =
+                          if Nat.eqb c' n then Some y2 else if Nat.eqb c' c then Some xc else get s c').
+  { intros c'. rewrite (get_set_co _ _ _ _ _ Hy). destruct (Nat.eqb c' n); [reflexivity|].
+    subst s1. apply (get_set_co _ _ _ _ _ Hx). }
+  constructor; simpl; autorewrite with frame.
+  - pose proof (tokens_set_co s1 n y2 y Hy) as T. rewrite F. lia.
+  - rewrite F. discriminate.
+  - intros c' z. rewrite ?get_set_receiver, ?get_set_sender, G2.
+    destruct (Nat.eqb c' n) eqn:E1; [|destruct (Nat.eqb c' c) eqn:E2].
+    + intros Hz. inv_some Hz. split; [exact Ly2|apply stage_ok_none; exact Ry2].
+    + intros Hz. inv_some Hz. split; [exact Lc|apply stage_ok_none; exact Rc].
+    + intros Hz. apply Nat.eqb_neq in E2. split; [apply (i_lc s I c' z Hz)|]. apply stage_ok_none.
+      apply (proj1 (others_no_rel s c x c' z _ I Hx Rx Hz E2)).
+  - unfold lists. simpl. intros z Hz.
+    assert (Hz' : In z (lists s)).
+    { unfold lists. rewrite Rv. apply in_app_or in Hz. apply in_or_app. destruct Hz; [left|right; right]; assumption. }
+    assert (Nz : z <> n) by (intros ->; contradiction).
+    destruct (i_pk1 s I z Hz') as (y0 & Hy0 & Py0). rewrite ?get_set_receiver, G2.
+    apply Nat.eqb_neq in Nz. rewrite Nz. destruct (Nat.eqb z c) eqn:E2.
+    + apply Nat.eqb_eq in E2. subst z. exists xc. split; [reflexivity|]. rewrite Hx in Hy0. inv_some Hy0.
+      unfold parked in Pc. rewrite Py0 in Pc. destruct (pc xc); try discriminate. reflexivity.
+    + exists y0. split; assumption.
+  - unfold lists. simpl. exact ND1.
+  - intros c' z. rewrite ?get_set_receiver, G2. unfold lists. simpl.
+    destruct (Nat.eqb c' n) eqn:E1; [|destruct (Nat.eqb c' c) eqn:E2].
+    + intros Hz Pz. inv_some Hz. rewrite Py2 in Pz. discriminate.
+    + intros Hz Pz. inv_some Hz. apply Nat.eqb_eq in E2. subst c'. apply Nat.eqb_neq in E1.
+      assert (Px : pc x = PParked).
+      { unfold parked in Pc. rewrite Pz in Pc. destruct (pc x); try discriminate. reflexivity. }
+      pose proof (i_pk3 s I c x Hx Px) as Hin. unfold lists in Hin. rewrite Rv in Hin.
+      apply in_app_or in Hin. apply in_or_app. destruct Hin as [Hin|[Hin|Hin]]; auto. congruence.
+    + intros Hz Pz. apply Nat.eqb_neq in E1.
+      pose proof (i_pk3 s I c' z Hz Pz) as Hin. unfold lists in Hin. rewrite Rv in Hin.
+      apply in_app_or in Hin. apply in_or_app. destruct Hin as [Hin|[Hin|Hin]]; auto. congruence.
+Qed.
+
+Lemma end_rel_rel f x : rel (end_rel f x) = None.
+Proof. destruct f; reflexivity. Qed.
+Lemma end_rel_holds f x : holds x = 0 -> holds (end_rel f x) = 0.
+Proof. intros H. pose proof (end_rel_tok f x H). unfold tok in *. lia. Qed.
+Lemma end_rel_parked s c x f stg w : Inv s -> get s c = Some x -> rel x = Some (f, stg, w) ->
+  match stg with RSelf _ | RXfer _ => False | _ => True end -> parked (end_rel f x) = parked x.
+Proof.
+  intros I Hx R S. destruct f; try reflexivity.
+  all: assert (P : pc x = PRel) by (eapply rel_pc; eauto; destruct stg; try contradiction; reflexivity).
+  all: unfold parked, end_rel; cbn; rewrite P; reflexivity.
+Qed.
+
+Lemma inv_rsubmitnext s c n e s' : Inv s -> step s (ERSubmitNext c n e) = Some s' -> Inv s'.
+Proof.
+  intros I H. unfold step in H. case_hyp H.
+  all: assert (Hh : holds c0 = 0) by (eapply rel_not_holding; eauto).
+  all: eapply (inv_hand s c c0 (end_rel r c0)); eauto;
+    [apply end_rel_rel|apply end_rel_holds; exact Hh|eapply end_rel_parked; eauto; exact Logic.I
+    |eapply end_rel_lcb; eauto; exact Logic.I|discriminate].
+Qed.
+
+Lemma inv_rtransfer s c n s' : Inv s -> step s (ERTransfer c n) = Some s' -> Inv s'.
+Proof.
+  intros I H. unfold step in H. case_hyp H.
+  all: assert (Hh : holds c0 = 0) by (eapply rel_not_holding; eauto).
+  all: eapply (inv_hand s c c0 (upd_rel None c0)); eauto; [side_parked|side_lcb I Heqo|discriminate].
+Qed.
+
+Lemma inv_rbatchsubmit s c e s' : Inv s -> step s (ERBatchSubmit c e) = Some s' -> Inv s'.
+Proof.
+  intros I H. unfold step in H. case_hyp H. inv_some H.
+  assert (P : pc c0 = PRel) by (eapply rel_pc; eauto).
+  pose proof (proj2 (i_lc _ I _ _ Heqo)) as G. unfold stage_ok in G. rewrite Heqo0, Heql in G.
+  match goal with |- Inv (set_co n (upd_exe _ ?y1) (set_co c ?x1 s)) => set (x' := x1) end.
+  assert (I1 : Inv (set_co c x' s)).
+  { subst x'. local_update I Heqo. rewrite Heql. apply Nat.eqb_refl. }
+  eapply inv_local; [exact I1|exact Heqo2|reflexivity|reflexivity| |].
+  - pose proof (proj1 (i_lc _ I1 _ _ Heqo2)) as L. exact L.
+  - pose proof (proj2 (i_lc _ I1 _ _ Heqo2)) as G1. exact G1.
 Qed.
